@@ -89,7 +89,12 @@ def _exec_chunk(args):
                 continue
             src = None
             if use_src or op.get("src") == "S" or op["name"] in ("add_tree", "tree_copy_to"):
-                src = core.build(src_state(fl, mk, src_xid), fl, mk, name="src")
+                try:
+                    src = core.build(src_state(fl, mk, src_xid), fl, mk, name="src")
+                except Exception as e:  # noqa: BLE001   the source tree is a specification state as well
+                    out.append({"id": rid, "fl": flname, "build_failed": f"source tree: {type(e).__name__}: {e}", "op": op,
+                                "pre": src_state(fl, mk, src_xid)})
+                    continue
             pre_st = core.norm_state(pre)
             pre_st = {k: pre_st[k] for k in ("n", "par", "kids", "top", "dat", "did", "knd", "meta", "typed")}
             if core.project(b)["st"] != pre_st:
